@@ -49,8 +49,8 @@ Definition edge_ok (zw : bool) (clipped : list ev) (N : list cpnode) (E : list c
             (g_w e =? dt) || ((g_w e =? 0) && negb (c_start nv) && c_block nv)
           else if g_ty e =? 1 then (g_w e =? 0)
           else if g_ty e =? 2 then
-            (* launch delay: start of the launch call -> start of the activity it launched *)
-            c_start nu && c_start nv && negb (is_dev_ev eu) && is_dev_ev ev_ && (icorr ev_ =? idx eu) &&
+            (* launch delay: start of the launch call -> start of the activity it launched (a positive link: 0 is the 'no partner' sentinel) *)
+            c_start nu && c_start nv && negb (is_dev_ev eu) && is_dev_ev ev_ && ((icorr ev_ =? idx eu) && (0 <? icorr ev_)) &&
             ((g_w e =? dt) || (zw && (g_w e =? 0)))
           else if g_ty e =? 3 then
             (* kernel-to-kernel delay: end of a kernel -> start of the next kernel of the same stream *)
